@@ -93,10 +93,14 @@ function makeEnv(c) {
 
 const PRELUDE = 'const { Comp, ns, x, y, xs, c, o, namedFn, vs, vsFoo, vsDefault, mkSlot, tick } = __env.bound;\nlet sl = __env.sl0;\n__out.setSl = (v) => { [sl] = [v]; };\n';
 
+// other attributes next to v-slots (props, never slots): a JSX element as attribute value re-enters the element code
+const CO = { none: ['', ''], bareAfter: ['', ' icon=<i id="b">inner</i>'], bareBefore: [' icon=<i id="b">inner</i>', ''], bracedAfter: ['', ' icon={<i id="b">inner</i>}'], compAfter: ['', ' icon=<Comp id="c">{x}</Comp> id="a"'], spreadBefore: [' {...o}', ''] };
 function render(c) {
   const tag = HOSTS[c.host];
   const ch = SHAPES[c.shape].src;
-  let J = ch === '' ? `<${tag}${VSLOTS[c.vslots]} />` : `<${tag}${VSLOTS[c.vslots]}>${ch}</${tag}>`;
+  const co = CO[c.co || 'none'];
+  const attrs = `${co[0]}${VSLOTS[c.vslots]}${co[1]}`;
+  let J = ch === '' ? `<${tag}${attrs} />` : `<${tag}${attrs}>${ch}</${tag}>`;
   if (c.host === 'ShadowAlias') J = `((Sh) => ${J})(Comp)`;
   return (c.host === 'ShadowAlias' ? "import { Fragment as Sh } from 'vue';\n" : c.host === 'ForeignFragment' ? "import { Fragment as Fg } from 'lib';\n" : '') + PRELUDE + CTX[c.ctx].tpl(J) + '\n';
 }
@@ -168,7 +172,9 @@ const ORDERS_PAIR = [['c', 'i1', 'i2'], ['c', 'i2', 'i1']];
 function judge(c, resps) {
   const r = resps[0];
   if (r.parse_error) return { engineError: 'generated case does not parse: ' + r.parse_error };
-  if (r.panic || r.died || r.hang || !r.eval_js) return { skip: true };
+  // a well-formed input of this space for which the transform panics or kills its process has no output that could satisfy the property
+  if (r.panic || r.died) return { viol: [{ clause: 'transform-failed', diff: r.panic ? 'panic' : 'process-died', msg: r.panic ? `panic in ${r.panic.stage}: ${r.panic.msg}` : 'the transform killed its process' }], obs: 'transform-failed' };
+  if (r.hang || !r.eval_js) return { skip: true };
   if (abstain(c)) return { skip: true };
   const viol = [];
   const obsAll = [];
@@ -262,6 +268,10 @@ function spaces(tier) {
     bounds: { hosts: DIMS.host, shapes: DIMS.shape, runtime_kinds: KINDS, vslots: DIMS.vslots, contexts: DIMS.ctx, options: 'enableObjectSlots × optimize', interleavings: { call2: ORDERS_CALL2.concat(tier === 'thorough' ? ORDERS_CALL2_DEEP : []).map((o) => o.join(',')), pair: ORDERS_PAIR.concat(tier === 'thorough' ? ORDERS_PAIR_DEEP : []).map((o) => o.join(',')) } },
     *gen() { yield* allCases(); },
   }, {
+    name: 'A:attributes-next-to-v-slots',
+    bounds: { co_attributes: Object.keys(CO).filter((k) => k !== 'none'), hosts: ['Comp', 'member'], contexts: ['arrow', 'stmt'], note: 'the same product with another attribute before / after v-slots (incl. JSX elements as attribute values, bare and braced): the slots are what they are without it' },
+    *gen() { for (const c of allCases()) if (['Comp', 'member'].includes(c.host) && ['arrow', 'stmt'].includes(c.ctx) && !c.opt) for (const co of Object.keys(CO)) if (co !== 'none') yield Object.assign({}, c, { co }); },
+  }, {
     name: 'P:configured-pragma',
     bounds: { pragma: 'hh (a createVNode-compatible factory)', contexts: thorough ? 'all' : ['arrow', 'fn', 'stmt', 'loop'], vslots: thorough ? 'all' : ['none', 'obj'], note: 'the same product under a configured vnode factory: what the children become must not depend on who creates the vnodes' },
     *gen() { for (const c of allCases()) if (thorough || (['arrow', 'fn', 'stmt', 'loop'].includes(c.ctx) && ['none', 'obj'].includes(c.vslots))) yield Object.assign({}, c, { pg: true }); },
@@ -271,6 +281,7 @@ function spaces(tier) {
 function* shrink(c) {
   // each dimension towards its simplest value (first entry), one at a time
   if (c.pg) yield Object.assign({}, c, { pg: false });
+  if (c.co && c.co !== 'none') yield Object.assign({}, c, { co: 'none' });
   if (c.ctx !== 'arrow') yield Object.assign({}, c, { ctx: 'arrow' });
   if (c.ctx !== 'arrow' && c.ctx !== 'stmt') yield Object.assign({}, c, { ctx: 'stmt' });
   if (c.host !== 'Comp') yield Object.assign({}, c, { host: 'Comp' });
@@ -284,7 +295,7 @@ function* shrink(c) {
 }
 
 function caseKey(c) {
-  return `${c.ctx}:<${HOSTS[c.host]}${c.vslots === 'none' ? '' : ' v-slots:' + c.vslots}>${c.shape}${SHAPES[c.shape].dyn ? '=' + c.kind : ''}{${c.eos ? 'eos' : '-'}${c.opt ? '+optimize' : ''}${c.pg ? '+pragma' : ''}}`;
+  return `${c.ctx}:<${HOSTS[c.host]}${c.vslots === 'none' ? '' : ' v-slots:' + c.vslots}>${c.shape}${SHAPES[c.shape].dyn ? '=' + c.kind : ''}{${c.eos ? 'eos' : '-'}${c.opt ? '+optimize' : ''}${c.pg ? '+pragma' : ''}}${c.co && c.co !== 'none' ? ' +' + c.co : ''}`;
 }
 
 module.exports = {
